@@ -35,6 +35,7 @@ pub fn standin(path: &Path) -> (Vec<String>, u32) {
         decomp: true,
         share: true,
         keep_false: false,
+        and_false: false,
         neg_first: false,
         interleave: true,
         order: (1..=total).collect(),
